@@ -90,7 +90,8 @@ CHECKS['C15'] = dict(level=MC, ref='4 C15',
     note='bounded: 60/900 tensor call sequences of 14/18 calls over all symmetries (pure ops of C01 + copy/clone/shallow_copy + set_block + block-view writes), 18/240 MPS sequences (add, mul, conj, apply, '
          'measure, to_tensor, reverse, copy/clone/shallow_copy, canonize_/truncate_/orthogonalize_site_/absorb_central_/item assignment), 4/24 PEPS sequences (copy/clone/shallow_copy, item assignment, '
          'apply_gate_, Peps2Layers copy/clone, copy/clone/shallow_copy/item assignment/block-view write while a patch is open); element-wise and scalar functions (abs, real, imag, exp, sqrt, rsqrt, reciprocal, '
-         'pow, entropy, truncation_mask, to_dense / to_numpy / to_nonsymmetric / to_dict, norms) as pure calls; a rejected pure call must change nothing either; environments not driven yet; the API list is explicit in the drivers, not introspected',
+         'pow, entropy, truncation_mask, to_dense / to_numpy / to_nonsymmetric / to_dict, norms) as pure calls; a rejected pure call must change nothing either; 4/24 environment sequences (EnvCTM / EnvBP copy, clone, shallow_copy, measure_*, update_ / expand_outward_ / reset_ / iterate_, assignment and block-view write '
+         'into an environment tensor, EnvNTU.bond_metric, EnvBoundaryMPS, mps.Env setup_ / update_env_ / measure, one dmrg_ sweep: the PEPS / MPS / MPO they are built from are watched like every other object); the API list is explicit in the drivers, not introspected',
     technique='TLA+ aliasing model (Heap) + TLC + trace validation of recorded public calls with before/after digests of all live objects')
 CHECKS['C17'] = dict(level=MC, ref='4 C17',
     text='Serialize.tla is a state machine over serialisation FORMS (obj, dict, split, legacy, hdf5, done) tracking level and whether a pending permutation is still pending; TLC explores ALL routes to '
